@@ -491,7 +491,20 @@ class H:
                 return False
             if len(spec) > 3 and spec[3] not in w[1]:
                 return False
-            return w[0] in self.res_locals(spec[1], spec[2])
+            rl = self.res_locals(spec[1], spec[2])
+            if w[0] not in rl:
+                return False
+            # ... and on every path: each definition of the carrying local derives from that result (a local that is
+            # also assigned from something else in another branch carries the value only sometimes)
+            for d in cfg.defs(b).get(w[0], []):
+                if d[0] == "partial":
+                    continue
+                ops = d[2]["a"] if d[0] == "call" else cfg.rvalue_operands(d[2])
+                roots = [cfg.op_place(o)[0] for o in ops if cfg.op_place(o)]
+                is_source = d[0] == "call" and any(d[2] is t for i, t in self.find_calls(spec[1], spec[2]))
+                if not is_source and not any(r in rl for r in roots):
+                    return False
+            return True
         if spec[0] == "const":
             if w is None:
                 return False
